@@ -138,3 +138,19 @@ impl ReceiverSigner {
         ]
     }
 }
+
+/// Verification hooks (compiled only with `--cfg gmsol_verif`): thin wrappers of crate-private methods.
+#[cfg(gmsol_verif)]
+pub mod verif {
+    use super::*;
+
+    /// See [`Config::set_gt_factor`].
+    pub fn set_gt_factor(config: &mut Config, factor: u128) -> Result<u128> {
+        config.set_gt_factor(factor)
+    }
+
+    /// See [`Config::set_buyback_factor`].
+    pub fn set_buyback_factor(config: &mut Config, factor: u128) -> Result<u128> {
+        config.set_buyback_factor(factor)
+    }
+}
